@@ -36,7 +36,7 @@ CONTEXTS = [
 HEAD_CONTEXTS = ['&tel {{ {F} }}.', '&tel {{ {F} }} :- a.', '#program initial.\n&tel {{ {F} }} :- not b.', '#program final.\n&tel {{ {F} }}.', '&tel {{ {F} ; b }}.', '&tel {{ {F} }} > 2.', 'a ; &tel {{ {F} }}.',
                  '{{ &tel {{ {F} }} }}.', 'not &tel {{ {F} }}.', '&tel {{ {F} }} :- &tel {{ a }}.']
 # non-ground head formulas: variables of the rule in n-fold prefixes, nested with numeric offsets and with each other
-NONGROUND_HEAD = ['1 > (N > a)', 'N > (1 > a)', 'a ;> (N > b)', 'N > (N > a)', '(N+1) > a', 'N >: a | 2 > b', '> (N >: (> a))', 'N > a >? b', '(N-1) > a', 'N > (M > a)', '(N+M) >: a',
+NONGROUND_HEAD = ['N > (>? a)', 'N > (>* a)', 'N >: (>> a)', 'N > (a >? b)', 'N > (> (b >* a))', '>? (N > (>* a))', 'N > (M > (>? a))', '1 > (N > a)', 'N > (1 > a)', 'a ;> (N > b)', 'N > (N > a)', '(N+1) > a', 'N >: a | 2 > b', '> (N >: (> a))', 'N > a >? b', '(N-1) > a', 'N > (M > a)', '(N+M) >: a',
                   '2 > (N > (1 > a))', 'N > a & M > b', 'a >* (N > b)', '>? (N > a)', 'N > (> a | 2 > b)', 'N > p(N)', '> p(N+1)', 'N > p(M) ;> q(N)', '(N-2) > a', 'N > (0 > a)', '0 > (N > a)']
 NONGROUND_CONTEXTS = ['&tel {{ {F} }} :- d(N), d(M).', '#program initial.\n&tel {{ {F} }} :- d(N), M = N+1.', '#program dynamic.\n&tel {{ {F} }} :- d(N), d(M), not a.']
 PROGRAM_LEVEL = [
@@ -64,6 +64,14 @@ def inputs(ctx):
     for f in NONGROUND_HEAD:
         for c in (NONGROUND_CONTEXTS if not ctx.quick else rng.sample(NONGROUND_CONTEXTS, 2)):
             out.append(('tel-head-nonground', base + 'd(1..2).\n' + c.format(F=f) + '\n'))
+    # the same formula text in a rule head and in rule bodies (&tel and &del) of one program, at the same and at different states
+    for f in ['>? a', 'a', '> a | b', 'a >* b', '&true', '2 > a', '>: (a & > b)', 'a ;> b']:
+        for hpart, bpart in (('initial', 'initial'), ('always', 'always'), ('initial', 'always'), ('dynamic', 'always')):
+            out.append(('head-and-body', base + '#program %s.\n&tel { %s }.\n#program %s.\n:- not &tel { %s }.\n' % (hpart, f, bpart, f)))
+            out.append(('head-and-body', base + '#program %s.\n:- not &tel { %s }.\nw :- not &tel { %s }.\n#program %s.\n&tel { %s } :- c.\n' % (bpart, f, f, hpart, f)))
+    for d in ['&true .>? a', '* &true .>* a', 'a .>? b']:
+        out.append(('head-and-body', base + '#program always.\n:- not &del { %s }.\nw :- not &tel { %s }.\n&tel { a | > b }.\n' % (d, 'a')))
+        out.append(('head-and-body', base + '#program initial.\n:- not &del { %s }.\n:- not &tel { > a }.\n&tel { > a }.\n' % d))
     for p in PROGRAM_LEVEL:
         out.append(('program', base + p + '\n'))
         out.append(('program', '#program final.\n' + p + '\n'))
